@@ -19,7 +19,8 @@ type RKnobs struct {
 	BarrierYield bool `json:"barrier_yield"`
 	MaxSteps     int  `json:"max_steps"`
 	ClockWeight  int  `json:"clock_w"`
-	DrainQueueW  int  `json:"drainq_w"` // weight of draining an output queue
+	DrainQueueW  int  `json:"drainq_w"`            // weight of draining an output queue
+	EventCap     int  `json:"event_cap,omitempty"` // capacity of the API event queue (0 = the shipped 10), hook H18
 	// ConcurrentStarts (C16, equal channel counts only): several StartReadCollection calls may be in flight at once
 	ConcurrentStarts bool `json:"concurrent_starts,omitempty"`
 }
@@ -153,6 +154,9 @@ func GenR(rng *Rng, prop string, tier string) *RScript {
 	case "C04", "C20":
 		k.BarrierYield = true
 		nP = rng.Range(1, 3)
+		if prop == "C04" && rng.Pct(30) {
+			k.EventCap = rng.Range(1, 2)
+		}
 	case "C16":
 		nP = rng.Range(1, 4)
 		nColl = rng.Range(2, 5)
